@@ -6,17 +6,18 @@ namespace Erbium.Props.C14
 open Erbium Erbium.DnsWire
 
 /-- **C14 (names).** Whatever has been written into the message so far (any sequence of names and
-    records, summarised by a valid offsets tree), a name of at most 127 labels of 1..63 octets
+    records, summarised by a valid offsets tree), a name of at most 255 octets (RFC 1035; hence at most 127 labels) with labels of 1..63 octets
     that `push_compressed_domain` writes next — in full, as labels followed by a pointer, or as a
     single pointer — is read back by the decoder as exactly that name, the decoder continues
     right behind it, and the tree stays valid for the longer message. Holds for messages up to
     65535 octets. -/
-theorem C14_name_roundtrip (d : Name) (hd : WfName d) (hlen : d.length ≤ 127) (t t' : Tree) (pre bytes : Bytes)
+theorem C14_name_roundtrip (d : Name) (hd : WfName d) (hw : wireLen d ≤ 255) (t t' : Tree) (pre bytes : Bytes)
     (h : pushName d t pre.length = some (bytes, t')) (ht : RootOK pre t)
     (hsz : pre.length + bytes.length < 65536) :
     (∀ post, getDomain (pre ++ bytes ++ post) pre.length = .ok (d, pre.length + bytes.length)) ∧
     RootOK (pre ++ bytes) t' :=
-  pushName_spec d hd (by unfold limit; simpa [Generated.Dns.pointerDepthLimit] using hlen) t t' pre bytes h ht hsz
+  pushName_spec d hd (by have := wireLen_ge hd; unfold limit; simp only [Generated.Dns.pointerDepthLimit]; omega)
+    (by simpa [Generated.Dns.nameOctetLimit] using hw) t t' pre bytes h ht hsz
 
 /-- the empty tree the serialiser starts from is valid for any buffer -/
 theorem C14_initial_tree_valid (buf : Bytes) : RootOK buf root := rootOK_root buf
